@@ -122,6 +122,14 @@ def check_network(ctx, net, tag="", via_graph=False):
                 bad("kernel-residual", f"{name} kernel basis does not annihilate S (residual {res:.2e})")
             if np.linalg.matrix_rank(B) != k:
                 bad("kernel-dim", f"{name} kernel 'basis' is linearly dependent")
+    # semiflow wrappers (Petri vocabulary for the same kernels)
+    from synkit.CRN.Petri.semiflows import find_p_semiflows, find_t_semiflows
+    for name, Bm, dim, M in (("P-semiflows", find_p_semiflows(obj), n_s - r_exact, Sf.T), ("T-semiflows", find_t_semiflows(obj), n_r - r_exact, np.round(Sm))):
+        Bm = np.atleast_2d(Bm)
+        k = Bm.shape[1] if Bm.size else 0
+        ctx.count("semiflows_checked")
+        if k != dim or (k and np.abs(M @ Bm).max() / max(1.0, np.abs(M).max()) > 1e-9):
+            bad("semiflows", f"{name}: {k} vectors for exact dimension {dim}, or a vector does not annihilate S")
     # ---- conservativity ---- #
     cons_exact, cert = X.positive_kernel_vector(ST, n_s)
     if n_r == 0:
